@@ -418,6 +418,37 @@ def default_durability(ctx, rule):
                    "durability := %s, Some(..) on every path when manual_journal_persist is false" % A.tstr(term)[:90] if ok else
                    "%s: %s" % (fn.id, why), fn.loc(b))
     ctx.floor(rule, "callers of None-durability constructors", n_callers, 6)
+    # ... and "automatic" is what a database is configured with unless the user says otherwise: Config::new sets
+    # manual_journal_persist (and clean_path_on_drop: a database that deletes itself on drop recovers nothing) to false, and
+    # the only other writers of those fields are the builder's setters, storing their flag parameter
+    cn = ctx.fn("db_config::Config::new", rule)
+    if cn:
+        ogc = ctx.og(cn)
+        for blk in cn.blocks:
+            for st in blk["s"]:
+                rv = st["rv"]
+                if rv["k"] == "agg" and rv.get("adt") == "db_config::Config":
+                    d = dict(zip(rv["fields"], rv["ops"]))
+                    for fld in ("manual_journal_persist", "clean_path_on_drop"):
+                        tm = ogc.of_operand(d[fld]) if fld in d else None
+                        okd = tm is not None and tm.k == "const" and tuple(tm.a) == ("bool", False)
+                        ctx.ob(rule, cn, "config-default-%s-is-false" % fld, okd,
+                               "Config::new: %s := false" % fld if okd else
+                               "Config::new sets %s to %s by default: %s" % (fld, A.tstr(tm) if tm is not None else "?",
+                                   "every write of a database opened with default settings is acknowledged while still in the journal's user-space buffer" if fld == "manual_journal_persist"
+                                   else "a database opened with default settings deletes its folder when it is dropped"))
+    nset = 0
+    for fid, fn in sorted(F.fns.items()):
+        if fid.startswith("<db_config::Config as std::clone::Clone>"):
+            continue
+        for fld in ("manual_journal_persist", "clean_path_on_drop"):
+            for b, i, st in A.field_assigns(fn, fld, "Config"):
+                nset += 1
+                tm = ctx.og(fn).of_rvalue(st["rv"])
+                okd = tm.k == "param"
+                ctx.ob(rule, fn, "%s-written-from-the-setters-parameter" % fld, okd,
+                       "%s := the setter's flag" % fld if okd else "%s is overwritten with %s in %s" % (fld, A.tstr(tm)[:60], fid), fn.loc(b))
+    ctx.floor(rule, "writers of Config.manual_journal_persist / clean_path_on_drop besides Config::new", nset, 2)
 
 
 CREATE_NEW = ("std::fs::File::create_new", "std::fs::OpenOptions::create_new")
